@@ -34,7 +34,7 @@ func (Engine) Info(prop string) core.Info {
 		Stub:         []string{"clock (testing/synctest)", "TCP network (net import swapped for sim/shim/net -> sim/simnet + sim/pipe)", "scripted telnet server and client models", "applications on both ends (readers/writers)"},
 		Assumptions:  []string{"library runs on the Go 1.26.8 standard library, not 1.24.0", "goroutine choice between two environment events is the Go runtime's at GOMAXPROCS=1", "a dial_timeout URL parameter overrides the Dialer's own Timeout (as dial.go documents by construction)", "the simulated net.Dialer honours its context during connect (as the real one does)"},
 		QuickRuns:    80000,
-		ThoroughRuns: 1000000,
+		ThoroughRuns: 2000000,
 		WatchdogSec:  120,
 		// the deadline clause is decided on the simulated clock; a wall-clock hang
 		// would be a spin inside Dial/Accept, which the property also excludes
